@@ -1,6 +1,486 @@
-(* C14 — proofs about Model/TourReg.v *)
+(* C14 — proofs about Model/TourReg.v: tour well-formedness as a history invariant, refinement to
+   "list of job activities between fixed ends", characterisation of legs(), registry = finite set of free actors. *)
 From VRP Require Import Base.Tac Model.TourReg.
 #[local] Open Scope nat_scope.
 
-Lemma tour_new_start : forall c, hd_error (t_acts (tour_new c)) = Some start_act.
-Proof. intros []; reflexivity. Qed.
+(* ================================================================== sets, maps *)
+Lemma set_mem_In x s : set_mem x s = true <-> In x s.
+Proof.
+  unfold set_mem. rewrite existsb_exists. split.
+  - intros [y [H E]]. apply Nat.eqb_eq in E. subst; auto.
+  - intros H; exists x; split; auto. apply Nat.eqb_refl.
+Qed.
+Lemma set_mem_false x s : set_mem x s = false <-> ~ In x s.
+Proof. rewrite <- set_mem_In. destruct (set_mem x s); split; congruence. Qed.
+Lemma set_add_In x y s : In y (set_add x s) <-> y = x \/ In y s.
+Proof.
+  unfold set_add. destruct (set_mem x s) eqn:E.
+  - apply set_mem_In in E. split; [auto|]. intros [->|]; auto.
+  - simpl. split; intros [H|H]; auto.
+Qed.
+Lemma set_add_NoDup x s : NoDup s -> NoDup (set_add x s).
+Proof.
+  unfold set_add. destruct (set_mem x s) eqn:E; auto. intros. constructor; auto.
+  intros H1. apply set_mem_In in H1. congruence.
+Qed.
+Lemma set_remove_In x y s : In y (set_remove x s) <-> In y s /\ y <> x.
+Proof. unfold set_remove. rewrite filter_In, negb_true_iff, Nat.eqb_neq. tauto. Qed.
+Lemma set_remove_NoDup x s : NoDup s -> NoDup (set_remove x s).
+Proof. apply NoDup_filter. Qed.
+
+Lemma filter_len_le {A} (f : A -> bool) l : length (filter f l) <= length l.
+Proof. induction l; simpl; auto. destruct (f a); simpl; lia. Qed.
+Lemma filter_split_length {A} (f : A -> bool) l :
+  length (filter f l) + length (filter (fun x => negb (f x)) l) = length l.
+Proof. induction l; simpl; auto. destruct (f a); simpl; lia. Qed.
+
+(* ================================================================== tour *)
+Definition hasjob (a : act) : bool := match a_job a with Some _ => true | None => false end.
+Definition nojob (a : act) : bool := negb (hasjob a).
+Definition ends (c : bool) : list act := if c then [end_act] else [].
+
+(* the depots are exactly the activities without a job, in order: start first, then the end of a closed tour *)
+Definition depots_ok (t : tour) : Prop := filter nojob (t_acts t) = start_act :: ends (t_closed t).
+(* jobs() is a set and equals the set of jobs of the activities *)
+Definition jobs_ok (t : tour) : Prop :=
+  NoDup (t_jobs t) /\ forall j, In j (t_jobs t) <-> exists a, In a (t_acts t) /\ a_job a = Some j.
+(* start first, end last, only job activities in between *)
+Definition ends_in_place (t : tour) : Prop :=
+  exists mid, t_acts t = start_act :: mid ++ ends (t_closed t) /\ Forall (fun a => hasjob a = true) mid.
+
+Definition WFweak (t : tour) : Prop := depots_ok t /\ jobs_ok t.
+Definition WFTour (t : tour) : Prop := ends_in_place t /\ jobs_ok t.
+
+(* the index guard Tour::insert_at does not check (all in-repo callers satisfy it: leg index + 1) *)
+Definition in_guard (t : tour) (o : top) : Prop :=
+  match o with
+  | TInsertAt _ i => 1 <= i <= total t - (if t_closed t then 1 else 0)
+  | _ => True
+  end.
+Fixpoint guarded (t : tour) (ops : list top) : Prop :=
+  match ops with
+  | [] => True
+  | o :: r => in_guard t o /\ match tstep t o with Some (t', _) => guarded t' r | None => True end
+  end.
+
+(* ---- list facts *)
+Lemma insert_nth_cons {A} i (a x : A) l : insert_nth (S i) a (x :: l) = x :: insert_nth i a l.
+Proof. reflexivity. Qed.
+Lemma insert_nth_app {A} i (a : A) l e : i <= length l -> insert_nth i a (l ++ e) = insert_nth i a l ++ e.
+Proof.
+  intros H. unfold insert_nth. rewrite firstn_app, skipn_app.
+  replace (i - length l) with 0 by lia. simpl. rewrite app_nil_r, <- app_assoc. reflexivity.
+Qed.
+Lemma insert_nth_end {A} (a : A) l : insert_nth (length l) a l = l ++ [a].
+Proof. unfold insert_nth. rewrite firstn_all, skipn_all. reflexivity. Qed.
+Lemma insert_nth_In {A} i (a x : A) l : In x (insert_nth i a l) <-> x = a \/ In x l.
+Proof.
+  unfold insert_nth. rewrite <- (firstn_skipn i l) at 3. rewrite !in_app_iff. simpl. intuition.
+Qed.
+Lemma insert_nth_length {A} i (a : A) l : length (insert_nth i a l) = S (length l).
+Proof.
+  unfold insert_nth. rewrite app_length. simpl. rewrite <- (firstn_skipn i l) at 3. rewrite app_length. lia.
+Qed.
+Lemma filter_insert_nth {A} (f : A -> bool) i a l : f a = false -> filter f (insert_nth i a l) = filter f l.
+Proof.
+  intros H. unfold insert_nth. rewrite filter_app. simpl. rewrite H, <- filter_app, firstn_skipn. reflexivity.
+Qed.
+
+Lemma has_same_job_iff a j : has_same_job a j = true <-> a_job a = Some j.
+Proof.
+  unfold has_same_job. destruct (a_job a); [|split; congruence].
+  rewrite Nat.eqb_eq. split; congruence.
+Qed.
+Lemma nojob_not_same a j : nojob a = true -> has_same_job a j = false.
+Proof. unfold nojob, hasjob, has_same_job. destruct (a_job a); simpl; congruence. Qed.
+Lemma filter_nojob_remove j l :
+  filter nojob (filter (fun a => negb (has_same_job a j)) l) = filter nojob l.
+Proof.
+  induction l as [|a l IH]; simpl; auto.
+  destruct (has_same_job a j) eqn:E; simpl.
+  - destruct (nojob a) eqn:N; auto. rewrite (nojob_not_same _ j N) in E. discriminate.
+  - rewrite IH. reflexivity.
+Qed.
+
+(* ---- the observable step on tours, unfolded *)
+Lemma tstep_insert_at t a i t' r :
+  tstep t (TInsertAt a i) = Some (t', r) ->
+  exists j, a_job a = Some j /\ i <= length (t_acts t) /\ t_acts t <> [] /\ r = 0 /\
+            t' = mkTour (insert_nth i a (t_acts t)) (set_add j (t_jobs t)) (t_closed t).
+Proof.
+  cbn [tstep]. unfold insert_at. destruct (a_job a) as [j|]; [|discriminate].
+  destruct (t_acts t) eqn:E; [discriminate|].
+  destruct (Nat.leb i (length (a0 :: l))) eqn:L; [|discriminate].
+  intros H; inversion H; subst. exists j. apply Nat.leb_le in L. repeat split; auto. discriminate.
+Qed.
+Lemma tstep_insert_last t a : tstep t (TInsertLast a) = tstep t (TInsertAt a (job_activity_count t + 1)).
+Proof. reflexivity. Qed.
+Lemma tstep_remove_at t i t' r :
+  tstep t (TRemoveAt i) = Some (t', r) ->
+  exists a, nth_error (t_acts t) i = Some a /\ a_job a = Some r /\ t' = fst (remove t r).
+Proof.
+  cbn [tstep]. unfold remove_activity_at. destruct (nth_error (t_acts t) i) as [a|]; [|discriminate].
+  destruct (a_job a) as [j|] eqn:E; [|discriminate]. intros H; inversion H; subst. exists a; auto.
+Qed.
+
+(* ---- jobs_ok and depots_ok are preserved by EVERY step (no index guard needed) *)
+Lemma jobs_ok_insert t a i j :
+  jobs_ok t -> a_job a = Some j ->
+  jobs_ok (mkTour (insert_nth i a (t_acts t)) (set_add j (t_jobs t)) (t_closed t)).
+Proof.
+  intros [ND H] Ej. split; cbn.
+  - apply set_add_NoDup; auto.
+  - intros x. rewrite set_add_In, H. split.
+    + intros [->|[b [Hb Eb]]]; [exists a | exists b]; rewrite insert_nth_In; auto.
+    + intros [b [Hb Eb]]. apply insert_nth_In in Hb. destruct Hb as [->|Hb].
+      * left; congruence.
+      * right; exists b; auto.
+Qed.
+Lemma jobs_ok_remove t j : jobs_ok t -> jobs_ok (fst (remove t j)).
+Proof.
+  intros [ND H]. split; cbn.
+  - apply set_remove_NoDup; auto.
+  - intros x. rewrite set_remove_In, H. split.
+    + intros [[b [Hb Eb]] N]. exists b. split; auto. apply filter_In. split; auto.
+      apply negb_true_iff. destruct (has_same_job b j) eqn:S; auto.
+      apply has_same_job_iff in S. congruence.
+    + intros [b [Hb Eb]]. apply filter_In in Hb. destruct Hb as [Hb S]. split; [exists b; auto|].
+      intros ->. apply negb_true_iff in S. apply has_same_job_iff in Eb. congruence.
+Qed.
+Lemma jobs_ok_step t o t' r : jobs_ok t -> tstep t o = Some (t', r) -> jobs_ok t'.
+Proof.
+  intros J H. destruct o as [a i|a|j|i].
+  - apply tstep_insert_at in H. destruct H as [j [Ej [_ [_ [_ ->]]]]]. apply jobs_ok_insert; auto.
+  - rewrite tstep_insert_last in H. apply tstep_insert_at in H.
+    destruct H as [j [Ej [_ [_ [_ ->]]]]]. apply jobs_ok_insert; auto.
+  - cbn in H. inversion H; subst. apply (jobs_ok_remove t j J).
+  - apply tstep_remove_at in H. destruct H as [a [_ [_ ->]]]. apply jobs_ok_remove; auto.
+Qed.
+
+Lemma closed_step t o t' r : tstep t o = Some (t', r) -> t_closed t' = t_closed t.
+Proof.
+  intros H. destruct o as [a i|a|j|i].
+  - apply tstep_insert_at in H. destruct H as [j [_ [_ [_ [_ ->]]]]]. reflexivity.
+  - rewrite tstep_insert_last in H. apply tstep_insert_at in H. destruct H as [j [_ [_ [_ [_ ->]]]]]. reflexivity.
+  - cbn in H. inversion H; reflexivity.
+  - apply tstep_remove_at in H. destruct H as [a [_ [_ ->]]]. reflexivity.
+Qed.
+
+Lemma depots_ok_step t o t' r : depots_ok t -> tstep t o = Some (t', r) -> depots_ok t'.
+Proof.
+  unfold depots_ok. intros D H. rewrite (closed_step _ _ _ _ H). destruct o as [a i|a|j|i].
+  - apply tstep_insert_at in H. destruct H as [j [Ej [_ [_ [_ ->]]]]]. cbn.
+    rewrite filter_insert_nth; auto. unfold nojob, hasjob. rewrite Ej. reflexivity.
+  - rewrite tstep_insert_last in H. apply tstep_insert_at in H. destruct H as [j [Ej [_ [_ [_ ->]]]]]. cbn.
+    rewrite filter_insert_nth; auto. unfold nojob, hasjob. rewrite Ej. reflexivity.
+  - cbn in H. inversion H; subst. cbn. rewrite filter_nojob_remove. auto.
+  - apply tstep_remove_at in H. destruct H as [a [_ [_ ->]]]. cbn. rewrite filter_nojob_remove. auto.
+Qed.
+
+Lemma wfweak_step t o t' r : WFweak t -> tstep t o = Some (t', r) -> WFweak t'.
+Proof. intros [D J] H. split; [eapply depots_ok_step|eapply jobs_ok_step]; eauto. Qed.
+
+Lemma wfweak_new c : WFweak (tour_new c).
+Proof.
+  split.
+  - destruct c; reflexivity.
+  - split; [constructor|]. intros j. split; [intros []|].
+    intros [a [Ha Ej]]. destruct c; cbn in Ha; repeat (destruct Ha as [Ha|Ha]; [subst; discriminate|]); contradiction.
+Qed.
+
+Theorem wfweak_history : forall c ops t, trun (tour_new c) ops = Some t -> WFweak t /\ t_closed t = c.
+Proof.
+  intros c ops. assert (G : forall t0 t, WFweak t0 -> trun t0 ops = Some t -> WFweak t /\ t_closed t = t_closed t0).
+  { induction ops as [|o ops IH]; intros t0 t W H; cbn in H.
+    - inversion H; subst; auto.
+    - destruct (tstep t0 o) as [[t1 r]|] eqn:S; [|discriminate].
+      destruct (IH t1 t (wfweak_step _ _ _ _ W S) H) as [W' C]. split; auto.
+      rewrite C. eapply closed_step; eauto. }
+  intros t H. destruct (G _ _ (wfweak_new c) H) as [W C]. split; auto.
+Qed.
+
+(* ---- counts under the weak invariant *)
+Lemma wfweak_counts t : WFweak t ->
+  total t = job_activity_count t + 1 + (if t_closed t then 1 else 0) /\
+  job_activity_count t = length (filter hasjob (t_acts t)) /\
+  job_count t <= job_activity_count t /\
+  (has_jobs t = true <-> job_activity_count t <> 0).
+Proof.
+  intros [D [ND J]]. unfold depots_ok in D.
+  pose proof (filter_split_length hasjob (t_acts t)) as L.
+  change (fun x => negb (hasjob x)) with nojob in L. rewrite D in L.
+  assert (E : length (start_act :: ends (t_closed t)) = 1 + (if t_closed t then 1 else 0)) by (destruct (t_closed t); reflexivity).
+  rewrite E in L.
+  assert (JC : job_activity_count t = length (filter hasjob (t_acts t))).
+  { unfold job_activity_count. destruct (t_acts t) eqn:A; [simpl in L; lia|]. rewrite <- A in *. destruct (t_closed t); lia. }
+  assert (LE : job_count t <= length (filter hasjob (t_acts t))).
+  { unfold job_count.
+    set (jid := fun a => match a_job a with Some j => j | None => 0 end).
+    rewrite <- (map_length jid (filter hasjob (t_acts t))). apply NoDup_incl_length; auto.
+    intros j Hj. apply J in Hj. destruct Hj as [a [Ha Ea]]. apply in_map_iff. exists a. split.
+    - unfold jid. rewrite Ea. reflexivity.
+    - apply filter_In. split; auto. unfold hasjob. rewrite Ea. reflexivity. }
+  unfold total. repeat split; try lia.
+  - unfold has_jobs. rewrite negb_true_iff, Nat.eqb_neq. intros N. rewrite JC. intros Z.
+    destruct (t_jobs t) as [|j js] eqn:Ej; [auto|].
+    assert (Hj : In j (t_jobs t)) by (rewrite Ej; left; auto). apply J in Hj. destruct Hj as [a [Ha Ea]].
+    assert (In a (filter hasjob (t_acts t))) by (apply filter_In; split; auto; unfold hasjob; rewrite Ea; auto).
+    destruct (filter hasjob (t_acts t)); [auto|discriminate].
+  - unfold has_jobs. rewrite negb_true_iff, Nat.eqb_neq. intros N Z. apply N. rewrite JC.
+    destruct (filter hasjob (t_acts t)) as [|a l] eqn:F; auto.
+    assert (Ha : In a (filter hasjob (t_acts t))) by (rewrite F; left; auto).
+    apply filter_In in Ha. destruct Ha as [Ha Hj]. unfold hasjob in Hj. destruct (a_job a) as [j|] eqn:Ea; [|discriminate].
+    assert (In j (t_jobs t)) by (apply J; exists a; auto). destruct (t_jobs t); [contradiction|discriminate].
+Qed.
+
+(* ---- legs() *)
+Lemma windows2_length l : length (windows2 l) = length l - 1.
+Proof.
+  induction l as [|a l IH]; auto. destruct l as [|b l]; auto.
+  change (windows2 (a :: b :: l)) with ([a; b] :: windows2 (b :: l)). simpl length in *. lia.
+Qed.
+Lemma windows2_nth l : forall k, k + 1 < length l -> nth_error (windows2 l) k = Some (firstn 2 (skipn k l)).
+Proof.
+  induction l as [|a l IH]; intros k H; [simpl in H; lia|].
+  destruct l as [|b l]; [simpl in H; lia|].
+  change (windows2 (a :: b :: l)) with ([a; b] :: windows2 (b :: l)).
+  destruct k as [|k]; [reflexivity|]. cbn [nth_error skipn]. apply IH. simpl length in *. lia.
+Qed.
+Lemma zip_idx_length {A} (l : list A) : forall i, length (zip_idx i l) = length l.
+Proof. induction l; intros; simpl; auto. Qed.
+Lemma zip_idx_nth {A} (l : list A) : forall i k, nth_error (zip_idx i l) k = option_map (fun x => (x, i + k)) (nth_error l k).
+Proof.
+  induction l as [|x l IH]; intros i k; destruct k; simpl; auto.
+  - rewrite Nat.add_0_r. reflexivity.
+  - rewrite IH. replace (S i + k) with (i + S k) by lia. reflexivity.
+Qed.
+
+Definition legs_count (t : tour) : nat := total t - (if t_closed t then 1 else 0).
+
+Lemma legs_spec t :
+  t_acts t <> [] -> (t_closed t = true -> 2 <= total t) ->
+  length (legs t) = legs_count t /\
+  forall i, i < legs_count t -> nth_error (legs t) i = Some (firstn 2 (skipn i (t_acts t)), i).
+Proof.
+  unfold legs, legs_count, total. intros NE C2.
+  destruct (t_acts t) as [|a l] eqn:A; [congruence|]. clear NE.
+  destruct l as [|b l].
+  - (* a single activity *) simpl length. cbn [Nat.eqb Nat.sub Nat.ltb Nat.leb andb].
+    destruct (t_closed t); [specialize (C2 eq_refl); simpl in C2; lia|]. cbn. split; auto.
+    intros i Hi. assert (i = 0) by lia. subst. reflexivity.
+  - set (acts := a :: b :: l) in *. assert (L2 : 2 <= length acts) by (simpl; lia).
+    replace (Nat.eqb (length acts) 1) with false by (symmetry; apply Nat.eqb_neq; lia).
+    replace (Nat.ltb 0 (length acts - 1)) with true by (symmetry; apply Nat.ltb_lt; lia).
+    destruct (t_closed t); cbn [negb andb].
+    + rewrite zip_idx_length, windows2_length. split; auto. intros i Hi.
+      rewrite zip_idx_nth, windows2_nth by lia. reflexivity.
+    + rewrite app_length, zip_idx_length, windows2_length. simpl length. split; [lia|].
+      intros i Hi. destruct (Nat.eq_dec i (length acts - 1)) as [->|N].
+      * rewrite nth_error_app2; rewrite zip_idx_length, windows2_length; auto.
+        rewrite Nat.sub_diag. cbn [nth_error]. f_equal. f_equal.
+        symmetry. apply firstn_all2. rewrite skipn_length. lia.
+      * rewrite nth_error_app1 by (rewrite zip_idx_length, windows2_length; lia).
+        rewrite zip_idx_nth, windows2_nth by lia. reflexivity.
+Qed.
+
+Lemma wfweak_nonempty t : WFweak t -> t_acts t <> [] /\ (t_closed t = true -> 2 <= total t).
+Proof.
+  intros [D _]. unfold depots_ok in D. pose proof (filter_len_le nojob (t_acts t)) as L. rewrite D in L.
+  split.
+  - intros E. rewrite E in L. simpl in L. lia.
+  - intros C. rewrite C in L. simpl in L. unfold total. lia.
+Qed.
+
+(* ---- ends in place: needs the index guard *)
+Lemma wftour_weak t : WFTour t -> WFweak t.
+Proof.
+  intros [[mid [A F]] J]. split; auto. unfold depots_ok. rewrite A. cbn [filter].
+  change (nojob start_act) with true. cbn. f_equal. rewrite filter_app.
+  assert (filter nojob mid = []) as ->.
+  { clear A. induction F as [|a l Ha F IH]; auto. simpl. unfold nojob. rewrite Ha. simpl. auto. }
+  destruct (t_closed t); reflexivity.
+Qed.
+
+Lemma ends_length c : length (ends c) = if c then 1 else 0.
+Proof. destruct c; reflexivity. Qed.
+
+Lemma filter_ends j c : filter (fun a => negb (has_same_job a j)) (ends c) = ends c.
+Proof. destruct c; reflexivity. Qed.
+
+Lemma ends_in_place_step t o t' r :
+  ends_in_place t -> in_guard t o -> tstep t o = Some (t', r) -> ends_in_place t'.
+Proof.
+  intros [mid [A F]] G H. unfold ends_in_place. rewrite (closed_step _ _ _ _ H).
+  assert (INS : forall a i j, a_job a = Some j -> 1 <= i <= length mid + 1 ->
+     exists mid', insert_nth i a (start_act :: mid ++ ends (t_closed t)) = start_act :: mid' ++ ends (t_closed t) /\
+                  Forall (fun a => hasjob a = true) mid').
+  { intros a i j Ej Hi. destruct i as [|i]; [lia|]. exists (insert_nth i a mid). split.
+    - rewrite insert_nth_cons, insert_nth_app by lia. reflexivity.
+    - apply Forall_forall. intros x Hx. apply insert_nth_In in Hx. destruct Hx as [->|Hx].
+      + unfold hasjob. rewrite Ej. reflexivity.
+      + rewrite Forall_forall in F. auto. }
+  assert (REM : forall j, exists mid',
+     filter (fun a => negb (has_same_job a j)) (start_act :: mid ++ ends (t_closed t)) = start_act :: mid' ++ ends (t_closed t) /\
+     Forall (fun a => hasjob a = true) mid').
+  { intros j. exists (filter (fun a => negb (has_same_job a j)) mid). split.
+    - cbn [filter]. change (has_same_job start_act j) with false. cbn [negb]. rewrite filter_app, filter_ends. reflexivity.
+    - apply Forall_forall. intros x Hx. apply filter_In in Hx. rewrite Forall_forall in F. apply F. tauto. }
+  assert (TL : total t = length mid + 1 + (if t_closed t then 1 else 0)).
+  { unfold total. rewrite A. simpl. rewrite app_length, ends_length. lia. }
+  destruct o as [a i|a|j|i].
+  - apply tstep_insert_at in H. destruct H as [j [Ej [_ [_ [_ ->]]]]]. cbn [t_acts]. rewrite A.
+    cbn [in_guard] in G. apply (INS a i j Ej). destruct (t_closed t); lia.
+  - rewrite tstep_insert_last in H. apply tstep_insert_at in H. destruct H as [j [Ej [_ [_ [_ ->]]]]]. cbn [t_acts]. rewrite A.
+    apply (INS a _ j Ej). unfold job_activity_count. rewrite A. unfold total in TL. rewrite A in TL.
+    destruct (t_closed t); lia.
+  - cbn in H. inversion H; subst. cbn [t_acts]. rewrite A. apply REM.
+  - apply tstep_remove_at in H. destruct H as [a [_ [_ ->]]]. cbn [t_acts remove fst]. rewrite A. apply REM.
+Qed.
+
+Lemma wftour_step t o t' r : WFTour t -> in_guard t o -> tstep t o = Some (t', r) -> WFTour t'.
+Proof. intros [E J] G H. split; [eapply ends_in_place_step|eapply jobs_ok_step]; eauto. Qed.
+
+Lemma wftour_new c : WFTour (tour_new c).
+Proof.
+  split; [|apply wfweak_new]. exists []. split; auto.
+Qed.
+
+Theorem wftour_history : forall c ops t,
+  guarded (tour_new c) ops -> trun (tour_new c) ops = Some t -> WFTour t /\ t_closed t = c.
+Proof.
+  intros c ops t G H. split; [|eapply wfweak_history; eauto].
+  revert G H. generalize (wftour_new c). generalize (tour_new c).
+  induction ops as [|o ops IH]; intros t0 W G H; cbn in H.
+  - inversion H; subst; auto.
+  - destruct G as [G0 G]. destruct (tstep t0 o) as [[t1 r]|] eqn:S; [|discriminate].
+    apply (IH t1); auto. eapply wftour_step; eauto.
+Qed.
+
+(* histories without insert_at (insert_last, remove, remove_activity_at only) are always guarded *)
+Definition no_insert_at (o : top) : bool := match o with TInsertAt _ _ => false | _ => true end.
+Lemma guarded_no_insert_at ops : forall t, forallb no_insert_at ops = true -> guarded t ops.
+Proof.
+  induction ops as [|o ops IH]; intros t H; cbn; auto. cbn in H. apply andb_true_iff in H. destruct H as [H0 H].
+  split.
+  - destruct o; cbn; auto. discriminate.
+  - destruct (tstep t o) as [[t' r]|]; auto.
+Qed.
+
+(* ---- refinement: the tour IS the list of job activities between the fixed ends *)
+Definition abs (t : tour) : list act :=
+  let l := tl (t_acts t) in if t_closed t then removelast l else l.
+
+Lemma abs_shape t mid : t_acts t = start_act :: mid ++ ends (t_closed t) -> abs t = mid.
+Proof.
+  intros A. unfold abs. rewrite A. cbn [tl]. destruct (t_closed t); cbn [ends].
+  - apply removelast_last.
+  - apply app_nil_r.
+Qed.
+
+Definition same_job_out (j : nat) (mid : list act) := filter (fun a => negb (has_same_job a j)) mid.
+
+Definition spec_step (mid : list act) (o : top) : option (list act * nat) :=
+  match o with
+  | TInsertAt a i =>
+      if hasjob a && Nat.leb 1 i && Nat.leb i (length mid + 1) then Some (insert_nth (i - 1) a mid, 0) else None
+  | TInsertLast a => if hasjob a then Some (mid ++ [a], 0) else None
+  | TRemove j => Some (same_job_out j mid, if existsb (fun a => has_same_job a j) mid then 1 else 0)
+  | TRemoveAt i =>
+      match i with
+      | 0 => None
+      | S i' => match nth_error mid i' with
+                | Some a => match a_job a with Some j => Some (same_job_out j mid, j) | None => None end
+                | None => None
+                end
+      end
+  end.
+
+Definition abs_res (x : option (tour * nat)) : option (list act * nat) :=
+  match x with Some (t', r) => Some (abs t', r) | None => None end.
+
+Lemma remove_abs t mid j :
+  t_acts t = start_act :: mid ++ ends (t_closed t) -> abs (fst (remove t j)) = same_job_out j mid.
+Proof.
+  intros A. apply abs_shape. cbn [remove fst t_acts t_closed]. rewrite A. cbn [filter].
+  change (has_same_job start_act j) with false. cbn [negb]. rewrite filter_app, filter_ends. reflexivity.
+Qed.
+
+Lemma insert_abs t mid a i j :
+  t_acts t = start_act :: mid ++ ends (t_closed t) -> i <= length mid ->
+  abs (mkTour (insert_nth (S i) a (t_acts t)) (set_add j (t_jobs t)) (t_closed t)) = insert_nth i a mid.
+Proof.
+  intros A Hi. apply abs_shape. cbn [t_acts t_closed]. rewrite A, insert_nth_cons, insert_nth_app by lia. reflexivity.
+Qed.
+
+Lemma mem_jobs_exists t mid j :
+  t_acts t = start_act :: mid ++ ends (t_closed t) -> jobs_ok t ->
+  set_mem j (t_jobs t) = existsb (fun a => has_same_job a j) mid.
+Proof.
+  intros A [_ J]. apply eq_true_iff_eq. rewrite set_mem_In, J, existsb_exists. split.
+  - intros [a [Ha Ea]]. rewrite A in Ha. cbn in Ha. destruct Ha as [<-|Ha]; [discriminate|].
+    apply in_app_iff in Ha. destruct Ha as [Ha|Ha].
+    + exists a. split; auto. apply has_same_job_iff; auto.
+    + destruct (t_closed t); cbn in Ha; intuition; subst; discriminate.
+  - intros [a [Ha Sa]]. exists a. split; [|apply has_same_job_iff; auto]. rewrite A. right. apply in_app_iff; auto.
+Qed.
+
+Theorem tour_refines t o : WFTour t -> in_guard t o -> abs_res (tstep t o) = spec_step (abs t) o.
+Proof.
+  intros [[mid [A F]] J] G. rewrite (abs_shape t mid A).
+  assert (LEN : length (t_acts t) = length mid + 1 + (if t_closed t then 1 else 0)).
+  { rewrite A. simpl. rewrite app_length, ends_length. lia. }
+  assert (NE : t_acts t <> []) by (rewrite A; discriminate).
+  assert (INS : forall a i, 1 <= i <= length mid + 1 ->
+     abs_res (tstep t (TInsertAt a i)) = if hasjob a then Some (insert_nth (i - 1) a mid, 0) else None).
+  { intros a i Hi. cbn [tstep]. unfold insert_at, hasjob. destruct (a_job a) as [j|]; [|reflexivity].
+    destruct (t_acts t) eqn:E; [congruence|]. rewrite <- E.
+    replace (Nat.leb i (length (t_acts t))) with true by (symmetry; apply Nat.leb_le; lia).
+    destruct i as [|i]; [lia|]. cbn [abs_res]. rewrite (insert_abs t mid) by (auto; lia).
+    replace (S i - 1) with i by lia. reflexivity. }
+  destruct o as [a i|a|j|i]; cbn [spec_step].
+  - cbn [in_guard] in G. unfold total in G.
+    assert (Hi : 1 <= i <= length mid + 1) by (destruct (t_closed t); lia).
+    rewrite (INS a i Hi).
+    replace (Nat.leb 1 i) with true by (symmetry; apply Nat.leb_le; lia).
+    replace (Nat.leb i (length mid + 1)) with true by (symmetry; apply Nat.leb_le; lia).
+    rewrite !andb_true_r. reflexivity.
+  - rewrite tstep_insert_last.
+    assert (JC : job_activity_count t + 1 = length mid + 1).
+    { unfold job_activity_count. destruct (t_acts t) eqn:E; [congruence|]. rewrite <- E. destruct (t_closed t); lia. }
+    rewrite JC, INS by lia. replace (length mid + 1 - 1) with (length mid) by lia. rewrite insert_nth_end. reflexivity.
+  - cbn [tstep]. unfold remove at 1. cbn [abs_res].
+    change (mkTour (filter (fun a => negb (has_same_job a j)) (t_acts t)) (set_remove j (t_jobs t)) (t_closed t)) with (fst (remove t j)).
+    rewrite (remove_abs t mid j A), (mem_jobs_exists t mid j A J). reflexivity.
+  - cbn [tstep]. unfold remove_activity_at. rewrite A. destruct i as [|i]; [reflexivity|]. cbn [nth_error].
+    destruct (Nat.lt_ge_cases i (length mid)) as [Hi|Hi].
+    + rewrite nth_error_app1 by auto. destruct (nth_error mid i) as [a|] eqn:E; [|reflexivity].
+      destruct (a_job a) as [j|]; [|reflexivity]. cbn [abs_res]. rewrite <- A, (remove_abs t mid j A). reflexivity.
+    + rewrite nth_error_app2 by auto. replace (nth_error mid i) with (@None act) by (symmetry; apply nth_error_None; auto).
+      destruct (t_closed t); cbn [ends].
+      * destruct (i - length mid) as [|k]; [reflexivity|]. destruct k; reflexivity.
+      * destruct (i - length mid); reflexivity.
+Qed.
+
+(* the concrete representation is determined by the abstract value *)
+Lemma wftour_repr t : WFTour t ->
+  t_acts t = start_act :: abs t ++ ends (t_closed t) /\ Forall (fun a => hasjob a = true) (abs t) /\
+  NoDup (t_jobs t) /\ (forall j, In j (t_jobs t) <-> exists a, In a (abs t) /\ a_job a = Some j).
+Proof.
+  intros [[mid [A F]] J]. rewrite (abs_shape t mid A). repeat split; auto; try apply J.
+  - intros Hj. apply set_mem_In in Hj. rewrite (mem_jobs_exists t mid j A J) in Hj. apply existsb_exists in Hj.
+    destruct Hj as [a [Ha Sa]]. exists a. split; auto. apply has_same_job_iff; auto.
+  - intros [a [Ha Ea]]. apply set_mem_In. rewrite (mem_jobs_exists t mid j A J). apply existsb_exists.
+    exists a. split; auto. apply has_same_job_iff; auto.
+Qed.
+
+(* the unguarded statement is false for the code as written *)
+Lemma ends_unguarded_refuted :
+  exists ops t, trun (tour_new true) ops = Some t /\ hd_error (t_acts t) <> Some start_act.
+Proof.
+  exists [TInsertAt (mkAct (Some 0) 2) 0]. eexists. split; [reflexivity|]. cbn. discriminate.
+Qed.
+Lemma end_unguarded_refuted :
+  exists ops t, trun (tour_new true) ops = Some t /\ last (t_acts t) start_act <> end_act.
+Proof.
+  exists [TInsertAt (mkAct (Some 0) 2) 2]. eexists. split; [reflexivity|]. cbn. discriminate.
+Qed.
